@@ -290,6 +290,35 @@ pub fn c06() -> i32 {
             deaths3 = deaths3.into_iter().step_by(2).collect();
         }
         scns.extend(deaths3);
+        // lockstep sessions of three peers (input delay >= 1), one dies and its last packets reach
+        // the survivors in every split: the host may hold more or less of the dead peer's input
+        // than the other survivor reports; whatever the host finally uses for a frame is what its
+        // spectator must have been handed. (Rollback windows are left out: unequal receipt there
+        // runs into the known finding filed under C10.)
+        let deaths_ls = crate::props::drop::death_scenarios("c06-death-3peers-lockstep-unequal", &["1+1+1"], &[0], &[1, 2, 3], &[false], if t { 3..14 } else { 5..9 }, 2, &[(100, 300)], &[true], CK_C02 | CK_C04);
+        scns.extend(deaths_ls);
+        // the same in another order of events: the other survivor stops hearing from the dying
+        // peer a few rounds earlier and drops it explicitly right after its death, so that its
+        // report of an earlier cut-off reaches the host while the host still counts the peer as
+        // connected and holds delayed input of it that it has not consumed yet
+        for d in [2usize, 3, 5] {
+            for r in if t { 6..16 } else { 8..12 } {
+                for cut_before in [2, 3] {
+                    let mut s = base_scn("c06-lockstep-gossip-earlier-cutoff", "1+1+1", 0, d, false, Pred::RepeatLast, Program::Changing, 1);
+                    s.specs.push(SpecSpec::new(20, s.peers[0].addr));
+                    let (q, p) = (s.peers[1].addr, s.peers[2].addr);
+                    let hp = s.peers[2].locals[0];
+                    s.outages.push(Outage { from: p, to: q, start: r - cut_before, len: 40, classes: CLASS_ALL });
+                    s.script.push(ScriptItem { round: r, node: 2, action: Action::Die });
+                    s.script.push(ScriptItem { round: r + 1, node: 1, action: Action::Disconnect { handle: hp } });
+                    s.name = format!("{} death@{r} link to the other survivor cut {cut_before} rounds earlier", s.name);
+                    s.horizon = r + 3;
+                    s.probe = 160;
+                    s.checks = CK_C02 | CK_C04;
+                    scns.push(s);
+                }
+            }
+        }
         // a player drops while the host's confirmed frame is still below the last frame the host
         // holds from it: the host ticks at half rate (the dying peer runs ahead), or a third peer
         // lags behind
